@@ -244,6 +244,14 @@ def _model(src, n):
     return out, mod.__dict__
 
 
+# a first test that compares values whose deep copy is the object itself (atoms, tuples / frozensets of atoms): whatever the
+# library learns from them must not change how the later, mutable values of the same types are recorded
+# (the calls are evaluated from strings so that the file keeps one textual snapshot() call per site)
+PRIMER = ("\n\ndef test_aa_primer():\n    for v in (1, 'a', None, 1.5, (1, 'a'), (), frozenset([1]), b'x', (1, (2, 'b'))):\n"
+          "        assert v == eval('snapshot(%r)' % (v,))\n        assert v in eval('snapshot([%r])' % (v,))\n"
+          "    for v in (1, 'a', 1.5, (1, 'a'), (), frozenset([1]), b'x', (1, (2, 'b'))):\n        assert v <= eval('snapshot(%r)' % (v,))\n        assert v >= eval('snapshot(%r)' % (v,))\n\n")
+
+
 def _judge(cases):
     from ..drivers.inline import run_inline
     from ..gen import programs as P
@@ -260,7 +268,7 @@ def _judge(cases):
         cases = [dict(c, _known=("[" + ", ".join([repr(x) for x in m0[i][1]] + ["'never-tested'"]) + "]") if (c.get("mode") == "known" and m0[i][0] == "ok") else "")
                  for i, c in enumerate(cases)]
     src = P.module([_site(i, c) for i, c in enumerate(cases)], ["DC", "NT"], header="") .replace(
-        "from inline_snapshot import snapshot\n", "from inline_snapshot import snapshot\n" + NOCOPY, 1) + "\n\n" + HASHMUT
+        "from inline_snapshot import snapshot\n", "from inline_snapshot import snapshot\n" + NOCOPY + PRIMER, 1) + "\n\n" + HASHMUT
     ctx = {"src": src}
     model, _ = _model(src, n)
     flags = ["create", "fix", "trim"] if any(c.get("mode") == "known" for c in cases) else ["create", "fix"]
